@@ -130,7 +130,14 @@ def run(pid, spec, tier, seed):
         if spec.get("driver"):
             ok, out = C.lake_build([spec["driver"]])
             if not ok:
-                raise RuntimeError("driver build failed:\n" + out[-3000:])
+                # the model no longer builds against the facts regenerated from this tree (e.g. a constant changed its type):
+                # the tie is broken, nothing can be compared
+                C.pipe_release()
+                rp = C.write_replay(pid, "model", dict(property=pid, kind="model-build", names="model/driver %s does not build against the "
+                                                       "regenerated facts" % spec["driver"], lean_output=out[-3000:], facts=facts_note))
+                print("VIOLATION property=%s replay=%s no-failing-input-found" % (pid, rp))
+                finish(pid, spec, tier, seed, t0, None, [], 1, notes + ["model does not build against the regenerated facts"], {})
+                return 1
         audit = C.lean_audit(pid, spec["lean"])
         proof_broken = list(audit["failed"])
         if tier == "thorough" and audit["ok"]:
